@@ -20,6 +20,7 @@ from .core import (
 )
 
 VERIF = os.path.dirname(os.path.dirname(os.path.abspath(__file__)))
+OUT = os.environ.get('SYMX_DEV_OUT', VERIF)     # evidence / replays (development runs against a scratch worktree write elsewhere)
 EXIT_OK, EXIT_VIOLATION, EXIT_HARNESS = 0, 1, 2
 
 
@@ -51,13 +52,40 @@ def _nullctx():
 
 LAST_SOFT = []
 
+PATH_TIMEOUT = float(os.environ.get('SYMX_PATH_TIMEOUT', '240'))       # one symbolic path (each solver call has its own limit)
+REPLAY_TIMEOUT = float(os.environ.get('SYMX_REPLAY_TIMEOUT', '120'))   # one concrete run of a harness body on the real stack
+
+
+class DidNotTerminate(Exception):
+    """The code under test was still running when the watchdog fired (bodies are small: this means a loop
+    that does not end, and is reported like any other exception - after it reproduced on the real stack)."""
+
+
+@contextlib.contextmanager
+def _watchdog(seconds, what):
+    import signal
+    import threading
+    if threading.current_thread() is not threading.main_thread() or not hasattr(signal, 'setitimer'):
+        yield
+        return
+
+    def fire(signum, frame):
+        raise DidNotTerminate(f'{what} still running after {seconds:.0f} s')
+    old = signal.signal(signal.SIGALRM, fire)
+    signal.setitimer(signal.ITIMER_REAL, seconds)
+    try:
+        yield
+    finally:
+        signal.setitimer(signal.ITIMER_REAL, 0)
+        signal.signal(signal.SIGALRM, old)
+
 
 def run_concrete(case, inputs, want_label=None):
     """Run the body on the unmodified stack. Returns (ok, label, detail)."""
     c = ConCtx(inputs)
     set_ctx(None)
     try:
-        with warnings.catch_warnings():
+        with warnings.catch_warnings(), _watchdog(REPLAY_TIMEOUT, 'the harness body on the real stack'):
             warnings.simplefilter('ignore')
             case.body(c, **case.params)
         global LAST_SOFT
@@ -83,7 +111,7 @@ def run_path(case, prefix, stats, probe=False):
     set_ctx(c)
     patches = case.patches() if case.patches else _nullctx()
     try:
-        with patches, warnings.catch_warnings():
+        with patches, warnings.catch_warnings(), _watchdog(PATH_TIMEOUT, 'one symbolic path'):
             warnings.simplefilter('ignore')
             case.body(c, **case.params)
         out = ('ok', None)
@@ -172,6 +200,8 @@ def explore(case, roots=((),), deadline=None, budget=None):
                 w = c.witness()
                 ok, label, detail = run_concrete(case, w)
                 res['validated'] += 1
+                if isinstance(e, DidNotTerminate):
+                    stack.clear()       # do not sit through the same endless loop on every remaining path of this case
                 if ok:
                     res['errors'].append(
                         f'{case.name}: {type(e).__name__} on a symbolic path does not reproduce '
@@ -334,6 +364,10 @@ def main_run(prop, tier, cases, *, functions=(), bounds=None, stubs=(), assumpti
     t0 = time.time()
     cases = list(cases)
     _CASES = cases
+    # a run that is still exploring after this long is reported as inconclusive (exit 2) instead of running on:
+    # realistic changes to the code can turn linear path conditions into polynomial ones
+    if not time_budget:
+        time_budget = float(os.environ.get('SYMX_TIME_BUDGET', '1500' if tier == 'quick' else '7200'))
     deadline = (t0 + time_budget) if time_budget else None
     pre_errors = []
     import collections
@@ -408,16 +442,16 @@ def main_run(prop, tier, cases, *, functions=(), bounds=None, stubs=(), assumpti
         else:
             new_viol.append(v)
 
-    os.makedirs(os.path.join(VERIF, 'replays', prop), exist_ok=True)
+    os.makedirs(os.path.join(OUT, 'replays', prop), exist_ok=True)
     lines = []
     for kid, (k, vs) in known_hit.items():
         lines.append(f"KNOWN-FINDING: property={prop} {k['description']} ({len(vs)} reproduced case(s), e.g. {vs[0]['case']})")
     replay_paths = []
     seen = set()
     # clear stale replay files of earlier runs of this property
-    for old in os.listdir(os.path.join(VERIF, 'replays', prop)):
+    for old in os.listdir(os.path.join(OUT, 'replays', prop)):
         if old.endswith('.json'):
-            os.unlink(os.path.join(VERIF, 'replays', prop, old))
+            os.unlink(os.path.join(OUT, 'replays', prop, old))
     per_label = {}
     for v in new_viol:
         key = (v['case'], v['label'])
@@ -428,7 +462,7 @@ def main_run(prop, tier, cases, *, functions=(), bounds=None, stubs=(), assumpti
         if per_label[v['label']] > 2 or len(replay_paths) >= 12:
             continue
         digest = hashlib.sha256(json.dumps([v['case'], v['label'], v['inputs']], sort_keys=True).encode()).hexdigest()[:12]
-        path = os.path.join(VERIF, 'replays', prop, f'{digest}.json')
+        path = os.path.join(OUT, 'replays', prop, f'{digest}.json')
         with open(path, 'w') as f:
             json.dump(dict(property=prop, case=v['case'], label=v['label'], inputs=v['inputs'],
                            how=v['how'], detail=v['detail']), f, indent=1)
@@ -465,8 +499,8 @@ def main_run(prop, tier, cases, *, functions=(), bounds=None, stubs=(), assumpti
               assumptions=list(assumptions), wall_s=round(wall, 2), violations=len(new_viol))
     if cov['states'] < 1:
         cov['states'] = 0
-    os.makedirs(os.path.join(VERIF, 'evidence'), exist_ok=True)
-    with open(os.path.join(VERIF, 'evidence', f'{prop}.json'), 'w') as f:
+    os.makedirs(os.path.join(OUT, 'evidence'), exist_ok=True)
+    with open(os.path.join(OUT, 'evidence', f'{prop}.json'), 'w') as f:
         json.dump(ev, f, indent=1, default=str)
 
     for ln in lines:
